@@ -102,7 +102,9 @@ def generate(rng, tier):
         # a file name outside ASCII, spelled the way git prints it by default (core.quotePath): in double quotes with
         # octal escapes
         names[0] = "src/caf\u00e9.rs"
-    flt = rng.choice([None, None, r".*\.rs", r"src/.*\.rs", r".*", r".*\.(rs|toml)", r"src/.*\.rs|tests/.*\.rs", r"build\.rs|src/lib\.rs"])
+    flt = rng.choice([None, None, r".*\.rs", r"src/.*\.rs", r".*", r".*\.(rs|toml)", r"src/.*\.rs|tests/.*\.rs", r"build\.rs|src/lib\.rs",
+                      # filters whose leftmost-first match can stop short of the end of a path they do match as a whole
+                      r".*\.(rs|rs\.in)", r"src/.+?\.rs.*?", r"src/lib\.rs|src/gen\.rs|src/gen\.rs\.in", r".*\.(r|rs|t|toml)"])
     eff_filter = flt or r".*\.rs"
     lines = []
     expected = []  # (file, lo, hi)
